@@ -15,6 +15,42 @@ from rig.routing_table import remove_default_routes, ordered_covering  # noqa: E
 
 NONE_BIT = 24
 
+# Which refinement paths the cases of this batch exercised (reported by the pseudo-case {"op": "events"};
+# observation only: the wrapped functions are called unchanged).
+EVENTS = {}
+
+
+def _count(key):
+    EVENTS[key] = EVENTS.get(key, 0) + 1
+
+
+def _instrument():
+    oc = ordered_covering
+    up, down, apply_ = oc._refine_upcheck, oc._refine_downcheck, oc._Merge.apply
+
+    def upcheck(merge, min_goodness):
+        new, changed = up(merge, min_goodness)
+        _count("upcheck:" + ("emptied" if changed and not new.entries else
+                             "removed-entries" if changed else "unchanged"))
+        return new, changed
+
+    def downcheck(merge, aliases, min_goodness):
+        new = down(merge, aliases, min_goodness)
+        _count("downcheck:" + ("unchanged" if new.entries == merge.entries else
+                               "emptied" if not new.entries else "removed-entries"))
+        if any(len(v) > 1 for v in aliases.values()):
+            _count("downcheck:with-aliases")
+        return new
+
+    def apply(self, aliases):
+        _count("merge-applied")
+        if self.insertion_index < len(self.routing_table) and \
+                oc._get_generality(self.routing_table[self.insertion_index].key,
+                                   self.routing_table[self.insertion_index].mask) == self.generality:
+            _count("merge-applied:above-equal-generality")
+        return apply_(self, aliases)
+    oc._refine_upcheck, oc._refine_downcheck, oc._Merge.apply = upcheck, downcheck, apply
+
 
 def entry(e):
     route, key, mask, sources = e
@@ -64,6 +100,8 @@ def sizes(table):
 
 def run_case(c):
     op = c["op"]
+    if op == "events":
+        return ["events", dict(EVENTS)]
     if op == "mts":
         tables = OrderedDict((tuple(chip), [entry(e) for e in t]) for chip, t in c["tables"])
         tg = c["targets"]
@@ -111,4 +149,5 @@ def run_case(c):
 
 if __name__ == "__main__":
     import implutil
+    _instrument()
     implutil.run_cases(run_case, per_case_s=20)
